@@ -795,6 +795,13 @@ def run(ctx, out):
             for wx in (float(Fraction(k) * Fraction(w0)), k * w0, float(Fraction(str(round(k * w0, 6))))):
                 ex = dict(kind=rngh.choice(['Vac', 'Iac']), v=1.0, w=wx, phi=0.5)
                 check_harmonic_lines(ctx, out, kind, rngh.choice(['rect', 'saw', 'tri']), 1.0, w0, 0.25, max(k + 2, 12), extra=ex)
+    # a sinusoidal source at a frequency that is NOT a harmonic: there the periodic source must be inert — a voltage source a
+    # short (own voltage 0), a current source an open (own current 0)
+    for w0, q in [(0.7, 2.5), (2.0, 1.25), (0.1, 3.5), (2 * math.pi * 50, 0.4)]:
+        for kind in ('Vper', 'Iper'):
+            for exk in ('Vac', 'Iac'):
+                ex = dict(kind=exk, v=1.5, w=q * w0, phi=0.5)
+                check_harmonic_lines(ctx, out, kind, rngh.choice(['rect', 'saw', 'tri', 'sin']), 1.0, w0, 0.25, 6, extra=ex)
     # reconstruction of periodic waveforms
     for wave in WAVES:
         for (V, w0, phi, w_max) in [(1.0, 2.0, 0.0, 41.0), (-2.0, 0.5, 1.0, 30.0)] if ctx.quick else \
